@@ -179,7 +179,8 @@ def run_hist():
             live = {}
             for jid in tracked:
                 j = wq.id2job.get(jid)
-                live[jid] = None if j is None else {"done": j.done, "error": j.error, "info": j.info, "result": j.result}
+                live[jid] = None if j is None else json.loads(json.dumps(
+                    {"done": j.done, "error": j.error, "info": j.info, "result": j.result}))
             status = {}
             for c in colls:
                 for w in writers:
